@@ -227,7 +227,20 @@ def dependence_walk_reaches_the_end(ctx, rep, rule):
                 continue  # goes on by recursion
             bad = st
             break
-    if bad is not None:
+    if bad is None:
+        # leaving the loop by `break` is answering False for everything behind this link, too -- unless the test
+        # says that there is nothing behind it (a fundamental register, no `alias_from`)
+        for st in iter_stmts(ws[0].body):
+            if isinstance(st, ast.Break):
+                tests = " ".join(ast.unparse(t) for t, _ in _enclosing_ifs(f.node, st))
+                if "fundamental" not in tests and "alias_from" not in tests:
+                    bad = st
+                    break
+    if isinstance(bad, ast.Break):
+        tests = " and ".join(ast.unparse(t) for t, _ in _enclosing_ifs(f.node, bad)) or "unconditionally"
+        rep.violation(rule, cons, f"`break` under `{tests[:70]}` ends the walk with the answer False although the chain goes on: a whole-register alias (`map work odd`) has no slice of its own, but its source `map odd q[first:8:stride]` has let-valued bounds -- `work[1]` is resolved with the declared values and a later fill_in_let(override) no longer reaches it", f"{f.path}:{bad.lineno}",
+                      witness="let first 1; let stride 2; register q[8]; map odd q[first:8:stride]; map work odd; g work[1]")
+    elif bad is not None:
         rep.violation(rule, cons, f"`{ast.unparse(bad)[:80]}` inside the walk answers for the whole chain from one link: with `map r q[a:]; map s r[0:4:2]` the literal slice of `s` ends the walk with False, `s[0]` is resolved with the declared value of the let `a`, and an override applied afterwards (fill_in_let after fill_in_map) no longer reaches it -- the passes stop commuting", f"{f.path}:{bad.lineno}",
                       witness="let a 1; register q[6]; map r q[a:]; map s r[0:4:2]; g s[0]  -- fill_in_let(fill_in_map(c), {'a': 2}) vs fill_in_map(fill_in_let(c, {'a': 2}))")
     else:
@@ -589,3 +602,33 @@ def index_normaliser_handles_bool(ctx, rep, rule):
 
 
 _add("C04", index_normaliser_handles_bool, "C04.17")
+
+
+# ---------------------------------------------------------------- C02 / C16: positions use the lexer's notion of a line
+
+def positions_count_newlines_like_the_lexer(ctx, rep, rule):
+    """The lexer advances its line number on "\\n" only.  str.splitlines() also splits at \\r, \\f, \\x1c-\\x1e, \\x85,
+    U+2028, U+2029 and drops the empty line after a final newline, so a position computed with it is not the
+    position of the end of input (nor of any token) for texts that end in a newline or contain those characters."""
+    ix = ctx.ix
+    rep.rule(rule, "no error position in the parser module is computed with str.splitlines() (the lexer counts \"\\n\" only; splitlines() splits at more characters and forgets the line after a final newline)", floor=1)
+    n = 0
+    for f in ix.functions.values():
+        if f.module != "jaqalpaq.parser.slyparse" or isinstance(f.node, ast.Lambda):
+            continue
+        makes_pos = any(isinstance(c, ast.Call) and "ParseError" in ast.unparse(c.func) for c in ast.walk(f.node)) or any(w in f.name for w in ("col", "pos", "error"))
+        if not makes_pos:
+            continue
+        n += 1
+        bad = [c for c in ast.walk(f.node) if isinstance(c, ast.Call) and isinstance(c.func, ast.Attribute) and c.func.attr == "splitlines"]
+        cons = construct_of(f, "line-notion")
+        if bad:
+            rep.violation(rule, cons, f"`{ast.unparse(bad[0])[:60]}` computes a position: for a text that ends in a newline (`{{ X q\\n`) the reported end of input is 1:6, the newline token, instead of 2:1 -- a position before the end of input although every token up to the end is a viable prefix", f"{f.path}:{bad[0].lineno}", witness="'{ X q\\n'")
+        else:
+            rep.ok(rule, cons, "no splitlines()", f.loc())
+    if n == 0:
+        rep.undecided(rule, "parser.slyparse:positions", "no position-computing function found")
+
+
+_add("C02", positions_count_newlines_like_the_lexer, "C02.14")
+_add("C16", positions_count_newlines_like_the_lexer, "C16.36")
